@@ -20,7 +20,10 @@ RULE = ('case = many-valued context (1-3 columns of the four shipped structures,
         'sub-dictionary of descriptions and a base set, by-name extension/intention, binarize, '
         'ConceptLattice.from_context with n_projections_to_binarize in {0, 1000}, close_by_one, '
         'close_by_one_objectwise, PatternConcept.from_objects (all four views), describe_pattern; half of the '
-        'multi-column contexts have pattern_types in an order different from attribute_names; plus a mutate-then-requery stream (context built on a first table and queried, '
+        'multi-column contexts have pattern_types in an order different from attribute_names; a third of the contexts run with the numpy switch fcapy.LIB_INSTALLED off (pure-python branches; no '
+        'IntervalNumpyPS column there), a third mutate in place the table / column lists handed to MVContext or the '
+        'data setter before querying (input aliasing), interval cells and descriptions may be half-bounded or '
+        'unbounded (+-inf encoded as +-2^62); plus a mutate-then-requery stream (context built on a first table and queried, '
         'then one or more columns replaced in place through AbstractPS.data = ... or MVContext.pattern_structures '
         '= ..., then every operation again, judged against the model/spec of the second table); non-trivial = at least 2 rows, some column not constant, and for the lattice '
         'operations at least 3 concepts')
@@ -40,8 +43,8 @@ def pname(k):
 def py_cell(kind, v, s, variant=0):
     if kind in ('interval', 'interval_np'):
         if v[0] == v[1] and variant % 2 == 0:
-            return v[0] / s
-        return (v[0] / s, v[1] / s)
+            return c13.to_float(v[0], s)
+        return (c13.to_float(v[0], s), c13.to_float(v[1], s))
     if kind == 'set':
         return set(v)
     return bool(v)
@@ -83,8 +86,19 @@ def make_context(case, cols=None):
     data = [[py_cell(cols[j]['kind'], cols[j]['data'][g], s, g + j) for j in order] for g in range(n)]
     ps_names = [pname(k) for k in case['pnames']]
     ptypes = {nm: cls[c['kind']] for nm, c in zip(ps_names, cols)}
-    return MVContext(data, ptypes, object_names=[oname(k) for k in case['onames']],
-                     attribute_names=[ps_names[j] for j in order])
+    K = MVContext(data, ptypes, object_names=[oname(k) for k in case['onames']],
+                  attribute_names=[ps_names[j] for j in order])
+    if case.get('alias'):
+        # the caller refills its table afterwards: the context must have copied the cells
+        for row in data:
+            for cell in row:
+                if isinstance(cell, set):
+                    cell.clear()
+                    cell.add(77)
+            c13.scramble(row)
+        data.reverse()
+        data.append([])
+    return K
 
 
 def col_cells(case, j, col):
@@ -140,7 +154,10 @@ def history_context(case):
         K.pattern_structures = pss
     else:       # 'data_setter': AbstractPS.data = ...
         for j in changed:
-            K.pattern_structures[j].data = col_cells(case, j, case['cols'][j])
+            handed = col_cells(case, j, case['cols'][j])
+            K.pattern_structures[j].data = handed
+            if case.get('alias'):
+                c13.scramble(handed)
     if h.get('requery_twice'):
         warm_up(case, K, h.get('pre_ops', []))
     return K
@@ -207,7 +224,7 @@ def run_impl(case):
         if op == 1:
             dd = {i: c13.desc_to_py(kind_of(case, i), d, s) for i, d in case['ds']}
             base = case['base']
-            if base is not None and case.get('base_as') == 'array':
+            if base is not None and case.get('base_as') == 'array' and not case.get('no_numpy'):
                 base = np.array(base, dtype=int)
             return canon(K.extension_i(dd, base_objects_i=base))
         if op == 2:
@@ -251,7 +268,17 @@ def run_impl(case):
             return [concept_out(case, c) for c in cca.close_by_one(K, n_projections_to_binarize=case['thr'])]
         return [concept_out(case, c) for c in cca.close_by_one_objectwise(K)]
     _preload()
-    r = guarded(go, timeout_s=60)
+    if case.get('no_numpy'):
+        # the library's own switch for running without numpy: exercises the pure-python branches
+        import fcapy
+        saved = fcapy.LIB_INSTALLED['numpy']
+        fcapy.LIB_INSTALLED['numpy'] = False
+        try:
+            r = guarded(go, timeout_s=60)
+        finally:
+            fcapy.LIB_INSTALLED['numpy'] = saved
+    else:
+        r = guarded(go, timeout_s=60)
     if r[0] == 'err' and r[1] == 'KeyError':
         m = re.search(r"'p(\d+)'", r[2])
         return ['err', 'KeyError', r[2], int(m.group(1)) if m else -1]
@@ -343,6 +370,10 @@ def random_column(rng, n, kind=None, special=None):
                 k = min(i, (len(grid) - 1) // 2)
                 lo, hi = grid[k], grid[len(grid) - 1 - k]
             data.append([lo, hi])
+        if rng.random() < 0.12:
+            i = rng.randrange(n)
+            data[i] = rng.choice([[-c13.INF, data[i][1]], [data[i][0], c13.INF], [-c13.INF, c13.INF]])
+            grid = sorted(set(grid) | {x for x in data[i] if abs(x) >= c13.INF})
         return {'kind': kind, 'data': data, 'grid': grid}
     if kind == 'set':
         u = rng.randint(1, 3)
@@ -379,6 +410,8 @@ def base_ctx(rng, n, cols, scale=1):
             rng.shuffle(order)
     return {'n': n, 'scale': scale, 'cols': [{'kind': c['kind'], 'data': c['data']} for c in cols],
             'grids': [c['grid'] for c in cols], 'attr_order': order,
+            'alias': rng.random() < 0.3,
+            'no_numpy': (rng.random() < 0.35) and all(c['kind'] != 'interval_np' for c in cols),
             'onames': rng.sample(range(60), n), 'pnames': rng.sample(range(60), m)}
 
 
@@ -585,6 +618,8 @@ def stats(case):
     d['grid'] = 'fine 2^-30' if case.get('scale', 1) == 2 ** 30 else (
         'big ints' if any(abs(x) >= 2 ** 24 for c in case['cols'] if c['kind'].startswith('interval')
                           for v in c['data'] for x in v) else 'small')
+    d['alias_probe'] = bool(case.get('alias'))
+    d['numpy_switch'] = 'off' if case.get('no_numpy') else 'on'
     d['name_order'] = 'same' if attr_order(case) == list(range(len(case['cols']))) else 'permuted'
     if case.get('history'):
         d['history'] = case['history'].get('how', '')
@@ -626,6 +661,11 @@ def shrink(case):
                 hh = dict(case['history'])
                 hh['before'] = [col for i, col in enumerate(case['history']['before']) if i != j]
                 c['history'] = hh
+            out.append(c)
+    for flag in ('alias', 'no_numpy'):
+        if case.get(flag):
+            c = dict(case)
+            c[flag] = False
             out.append(c)
     if attr_order(case) != list(range(m)):
         c = dict(case)
